@@ -423,12 +423,19 @@ func TestVerifC15(t *testing.T) {
 			rep.Violate("C15/outage/login-refused/"+mode, "password login does not work while the primary store is unreachable", map[string]int{"status": r.Code})
 		} else {
 			rep.Count("outage_auth_ok", 1)
-			time.Sleep(2100 * time.Millisecond)
-			r = env.Do(verifReq{Method: "POST", Path: "/api/v0/TOTPAuth", Form: url.Values{"OTP": {verifTOTPCode(e0.secret, time.Now())}}, Cookies: verifCk(ck)}.Build())
+			// (offered after the two-second spacing of code evaluations and, if refused, after longer pauses: a tree
+			// that spaces evaluations further apart is not one on which second-factor checks stop during an outage)
 			ok := false
-			if c := r.Cookie("auth_cookie"); c != nil {
-				if _, bits, v := verifCookieInfo(c.Value, trust.Keys); v && bits&verifBit["TOTP"] != 0 {
-					ok = true
+			for _, pause := range []time.Duration{2100 * time.Millisecond, 3100 * time.Millisecond, 6100 * time.Millisecond} {
+				time.Sleep(pause)
+				r = env.Do(verifReq{Method: "POST", Path: "/api/v0/TOTPAuth", Form: url.Values{"OTP": {verifTOTPCode(e0.secret, time.Now())}}, Cookies: verifCk(ck)}.Build())
+				if c := r.Cookie("auth_cookie"); c != nil {
+					if _, bits, v := verifCookieInfo(c.Value, trust.Keys); v && bits&verifBit["TOTP"] != 0 {
+						ok = true
+					}
+				}
+				if ok {
+					break
 				}
 			}
 			rep.Eval(fmt.Sprintf("outage|%s|totp|%v", mode, ok))
